@@ -221,7 +221,7 @@ def _build_evaluator(
         elem_fns = [
             _build_evaluator(e, var_indices) for e in expr.expression._expressions
         ]
-        return lambda x, fns=elem_fns: float(sum(f(x) for f in fns))
+        return lambda x, fns=elem_fns: np.float64(sum(f(x) for f in fns))
 
     elif isinstance(expr, DotProduct):
         # x · y = x[0]*y[0] + x[1]*y[1] + ...
@@ -243,34 +243,34 @@ def _build_evaluator(
         # x' @ Q @ x
         Q = expr.matrix
         vec_fn = _build_vector_evaluator(expr.vector, var_indices)
-        return lambda x, vf=vec_fn, Q=Q: float(vf(x) @ Q @ vf(x))
+        return lambda x, vf=vec_fn, Q=Q: np.float64(vf(x) @ Q @ vf(x))
 
     elif isinstance(expr, MatrixSum):
         # sum of all matrix entries (row-major, shared entries counted each time)
         elem_fns = [
             _build_evaluator(e, var_indices) for e in _matrix_entries(expr.matrix)
         ]
-        return lambda x, fns=elem_fns: float(sum(f(x) for f in fns))
+        return lambda x, fns=elem_fns: np.float64(sum(f(x) for f in fns))
 
     elif isinstance(expr, FrobeniusNorm):
         # sqrt of the sum of squared entries
         elem_fns = [
             _build_evaluator(e, var_indices) for e in _matrix_entries(expr.matrix)
         ]
-        return lambda x, fns=elem_fns: float(np.sqrt(sum(f(x) ** 2 for f in fns)))
+        return lambda x, fns=elem_fns: np.float64(np.sqrt(sum(f(x) ** 2 for f in fns)))
 
     elif isinstance(expr, VectorPowerSum):
         # sum(x ** k) - efficient numpy implementation
         indices = np.array([var_indices[v.name] for v in expr.vector._variables])
         power = expr.power
-        return lambda x, idx=indices, k=power: float(np.sum(x[idx] ** k))
+        return lambda x, idx=indices, k=power: np.float64(np.sum(x[idx] ** k))
 
     elif isinstance(expr, VectorUnarySum):
         # sum(f(x)) - efficient numpy implementation
         indices = np.array([var_indices[v.name] for v in expr.vector._variables])
         op = expr.op
         numpy_func = VectorUnarySum._NUMPY_FUNCS[op]
-        return lambda x, idx=indices, f=numpy_func: float(np.sum(f(x[idx])))
+        return lambda x, idx=indices, f=numpy_func: np.float64(np.sum(f(x[idx])))
 
     elif isinstance(expr, ElementwisePower):
         # x ** k element-wise - returns array
@@ -435,7 +435,7 @@ def _build_evaluator_iterative(
                     elem_fns.append(lambda x, v=val: v)
                 else:
                     elem_fns.append(_build_evaluator(e, var_indices))
-            result_stack.append(lambda x, fns=elem_fns: float(sum(f(x) for f in fns)))
+            result_stack.append(lambda x, fns=elem_fns: np.float64(sum(f(x) for f in fns)))
             continue
 
         if isinstance(node, DotProduct):
@@ -457,7 +457,7 @@ def _build_evaluator_iterative(
         if isinstance(node, QuadraticForm):
             Q = node.matrix
             vec_fn = _build_vector_evaluator(node.vector, var_indices)
-            result_stack.append(lambda x, vf=vec_fn, Q=Q: float(vf(x) @ Q @ vf(x)))
+            result_stack.append(lambda x, vf=vec_fn, Q=Q: np.float64(vf(x) @ Q @ vf(x)))
             continue
 
         # Vectorised / matrix reductions - flat nodes, reuse the node builders
